@@ -413,6 +413,7 @@ theorem step_inv (c : Case01) (w : World) (g : Gh) (hJ : J c.sess.max w g) (op :
   | down s => exact ⟨by simp [World.step, hl], by simpa [World.step, ghostStep] using S⟩
   | llgr s => simp [ghostStep] at hok
   | nh a up => exact ⟨by simp [World.step, hl], by simpa [World.step, ghostStep] using S⟩
+  | rtceor => exact ⟨by simp [World.step, hl], by simpa [World.step, ghostStep] using S⟩
   | reset k =>
     refine ⟨by simp [World.step, hl], ?_⟩
     simp only [World.step, ghostStep]
@@ -466,22 +467,23 @@ def finalWG (c : Case01) : World × Gh :=
 def liveNetsOf (c : Case01) : List Net := liveNetsAt c (c.pre ++ c.ops)
 
 /-- The hypotheses of the session-level theorems, computed along the run (in the session's mode,
-    with or without add-path): no LLGR stale period, a consistent initial snapshot, every delivered
+    with or without add-path): the neighbour did not negotiate RTC, no LLGR stale period, a consistent initial snapshot, every delivered
     change admissible for the view, every soft reset run on a snapshot of the view's destinations;
     and, at every flush that leaves the channel empty and at the end of the history (`pointOkB`):
     no policy change left without its soft reset, a consistent RIB snapshot whose paths (best paths,
     for a session without add-path) are the view's and whose prefixes are announced by some source. -/
 def okRun (c : Case01) : Bool :=
+  c.rtc.isNone &&
   noLlgr c.ops &&
   snapChk c.sess.max (snapshotOf c.sess (rib0Of c).1) &&
   (finalWG c).2.okq &&
   pointOkB c (c.pre ++ c.ops) (finalWG c).1 (finalWG c).2
 
 theorem run01_eq (c : Case01) :
-    run01 c = ⟨(finalWG c).1.st.flush.reuse, (finalWG c).1.st.flush.overtaken, (finalWG c).1.flushes,
+    run01Plain c = ⟨(finalWG c).1.st.flush.reuse, (finalWG c).1.st.flush.overtaken, (finalWG c).1.flushes,
                (finalWG c).1.quiet,
                (finalWG c).1.st.flush.mirror, freshDump (finalWG c).1.st.flush.sess (finalWG c).1.rib⟩ := by
-  simp only [run01, finalWG, stepWG, fold_fst, world0, rib0Of, gh0]
+  simp only [run01Plain, finalWG, stepWG, fold_fst, world0, rib0Of, gh0]
 
 /-- two well-shaped mirrors that agree on every lookup pass the set comparison of the checker -/
 theorem pointCheck_of_get_eq (c : Case01) (hist : List Op) (reuse overtaken : Nat) (final dump : Mirror) (sfx : String)
@@ -663,6 +665,7 @@ theorem step_q (c : Case01) (w : World) (g : Gh) (hJ : J c.sess.max w g) (hQ : Q
   | nh a up => intro q hq; exact hQ hq0 q (by simpa [World.step] using hq)
   | reset k => intro q hq; exact hQ hq0 q (by simpa [World.step] using hq)
   | greset k => intro q hq; exact hQ hq0 q (by simpa [World.step] using hq)
+  | rtceor => intro q hq; exact hQ hq0 q (by simpa [World.step] using hq)
   | deliver n => intro q hq; exact hQ hq0 q (by simpa [World.step] using hq)
 
 theorem run_inv_Q (c : Case01) (ops : List Op) (s : World × Gh) (hJ : J c.sess.max s.1 s.2) (hQ : QOk c s.1 s.2) :
@@ -676,7 +679,13 @@ theorem run_inv_Q (c : Case01) (ops : List Op) (s : World × Gh) (hJ : J c.sess.
     empty and at the end of the history. -/
 theorem check_run_ok (c : Case01) (h : okRun c = true) : Spec01.check c (run01 c) = .ok := by
   simp only [okRun, Bool.and_eq_true] at h
-  obtain ⟨⟨⟨_, hs0⟩, hokq⟩, hp⟩ := h
+  obtain ⟨⟨⟨⟨hrtc, _⟩, hs0⟩, hokq⟩, hp⟩ := h
+  have hplain : run01 c = run01Plain c := by
+    simp only [run01]
+    cases hc : c.rtc with
+    | none => rfl
+    | some i => rw [hc] at hrtc; cases hrtc
+  rw [hplain]
   -- the invariant holds initially
   have J0 : J c.sess.max (world0 c) (gh0 c) := by
     intro _
